@@ -28,7 +28,20 @@ def dump_args(args):
     return "{" + ",".join(out) + "}"
 
 
+# two fixed templates whose expansion carries whitespace at its edges: the
+# only way a value gets edge whitespace AFTER expansion
+EDGE_TEMPLATES = {
+    "tws": {"body": [["T", " y "]], "wrapper": "plain", "junk": ""},
+    "tnl": {"body": [["T", "\nz\n\n"], ["T", "w "]], "wrapper": "plain",
+            "junk": ""},
+}
+
+
 def invoke_strategy(sub):
+    edge = st.sampled_from([[["C", "tws", []]], [["C", "tnl", []]],
+                            [["T", "a"], ["C", "tws", []]],
+                            [["C", "tws", []], ["T", "b"]]])
+    sub = st.one_of(sub, sub, sub, edge)
     pads = st.lists(st.sampled_from(PADS), min_size=4, max_size=4)
     arg = st.one_of(
         sub.map(lambda s: ["pos", s]),
@@ -50,6 +63,7 @@ def args_case(draw):
     lib, page = draw(exp.case_strategy(depth=3, n_max=3,
                                        invoke=invoke_strategy, nowiki=False))
     lib = {k: dict(v, body=list(v["body"])) for k, v in lib.items()}
+    lib.update(EDGE_TEMPLATES)
     page = list(page)
     names = list(lib)
     sub = exp.seq_strategy(tuple(names[-1:]), 1, True, None, max_items=2,
